@@ -449,7 +449,7 @@ pub fn run(cli: &Cli) -> Report {
             db.set(ata(&k, &w.b), world::token_acc(w.b, k, 1_000_000_000));
         }
         starts[0].db = db.clone();
-        for variant in 0..3u8 {
+        for variant in 0..4u8 {
             use gmsol_model::{Bank as _, BaseMarketMut as _, PerpMarketMut as _, Pool as _, PoolExt as _};
             let mut d = db.clone();
             for (mi, m) in [w.m1.clone(), w.m2.clone()].iter().enumerate() {
@@ -460,7 +460,9 @@ pub fn run(cli: &Cli) -> Report {
                 // variant 1: collateral close to the whole recorded balance: claiming the fees would eat into it
                 // variant 2: as 1 on the short token, collateral split over both sides
                 let (fee_side_long, coll): (bool, i128) = match variant {
-                    0 => (true, 0),
+                    // variant 3: as 0, plus position collateral in the short token that is backed by recorded balance and vault
+                    // (what real positions leave behind): slack above the pools
+                    0 | 3 => (true, 0),
                     1 => (true, bal[0] + fee - 20_000),
                     _ => (false, bal[1] + fee - 1),
                 };
@@ -488,6 +490,16 @@ pub fn run(cli: &Cli) -> Report {
                 let v = w.vault(&token);
                 let amount = token_amount(&d, &v) + fee as u64;
                 d.set(v, world::token_acc(token, w.store, amount));
+                if variant == 3 {
+                    let backed: u64 = 40_000_000;
+                    w.edit_market(&mut d, m, |rm| {
+                        rm.collateral_sum_pool_mut(true).unwrap().apply_delta_to_short_amount(&(backed as i128)).unwrap();
+                        rm.record_transferred_in_by_token(&w.b, &backed).unwrap();
+                    });
+                    let v = w.vault(&w.b);
+                    let amount = token_amount(&d, &v) + backed;
+                    d.set(v, world::token_acc(w.b, w.store, amount));
+                }
             }
             starts.push(St { db: d, now: 1_000, phase: [Phase::Absent; 6], snap: [Snapshot::default(); 6] });
         }
